@@ -34,6 +34,8 @@ func init() {
 			"the datasource announces exactly the JSON fields the model serialises per __typename; the planner's input keys are the keys Source.Load decodes; the planner's includeDeprecated filter covers every collection whose elements carry isDeprecated and reads the key the model writes. " +
 			"It does not decide the round trip toSDL(fromIntrospection(generate(S))) ~ S nor the engine's answers as values.",
 		Mutants: []Mutant{
+			{Name: "the kind of a referenced type is left at its zero value unless the first indexed node is an enum (the shape of the defect repaired as F99)", File: "v2/pkg/introspection/generator.go", Rule: "C17-R20", Key: "introspectionVisitor.TypeRef/assigned-before-read:typeKind",
+				Old: "\t\ttypeKind, exists := typeKindOfNamedType(nodes)\n\t\tif !exists {\n\t\t\treturn TypeRef{TypeName: \"__Type\"}\n\t\t}\n", New: "\t\tvar typeKind __TypeKind\n\t\tif len(nodes) > 0 && nodes[0].Kind == ast.NodeKindEnumTypeDefinition {\n\t\t\ttypeKind = ENUM\n\t\t}\n"},
 			{Name: "the generator no longer enters object type extensions (reverts part of the F65 fix)", File: "v2/pkg/introspection/generator.go", Rule: "C17-R19", Key: "FieldDefinition-under-ObjectTypeExtension",
 				Old: "func (i *introspectionVisitor) EnterObjectTypeExtension(ref int) {\n\ti.enterType(i.definition.ObjectTypeExtensionNameString(ref), OBJECT)\n", New: "func (i *introspectionVisitor) EnterObjectTypeExtension(ref int) {\n"},
 			{Name: "number defaults are read through the sign-dropping accessor (seeded change C17-2)", File: "v2/pkg/introspection/generator.go", Rule: "C17-R15", Key: "introspectionVisitor.EnterInputValueDefinition/partial-value-accessor-under-kind-test",
@@ -70,9 +72,9 @@ func init() {
 			{Name: "converter imports a list as non-null", File: c17ConverterGo, Rule: "C17-R2", Key: "importType/wraps:LIST",
 				Old: "\t\treturn j.doc.AddListType(j.importType(*typeRef.OfType))", New: "\t\treturn j.doc.AddNonNullType(j.importType(*typeRef.OfType))"},
 			{Name: "type references to unions get no kind", File: c17GeneratorGo, Rule: "C17-R2", Key: "TypeRef/produces:UNION",
-				Old: "\t\tcase ast.NodeKindUnionTypeDefinition, ast.NodeKindUnionTypeExtension:\n\t\t\ttypeKind = UNION\n", New: ""},
+				Old: "\t\tcase ast.NodeKindUnionTypeDefinition, ast.NodeKindUnionTypeExtension:\n\t\t\treturn UNION, true\n", New: ""},
 			{Name: "references to interfaces are typed OBJECT", File: c17GeneratorGo, Rule: "C17-R2", Key: "TypeRef/ref-kind:InterfaceTypeDefinition",
-				Old: "\t\tcase ast.NodeKindInterfaceTypeDefinition, ast.NodeKindInterfaceTypeExtension:\n\t\t\ttypeKind = INTERFACE\n", New: "\t\tcase ast.NodeKindInterfaceTypeDefinition, ast.NodeKindInterfaceTypeExtension:\n\t\t\ttypeKind = OBJECT\n"},
+				Old: "\t\tcase ast.NodeKindInterfaceTypeDefinition, ast.NodeKindInterfaceTypeExtension:\n\t\t\treturn INTERFACE, true\n", New: "\t\tcase ast.NodeKindInterfaceTypeDefinition, ast.NodeKindInterfaceTypeExtension:\n\t\t\treturn OBJECT, true\n"},
 			{Name: "directive arguments not collected", File: c17GeneratorGo, Rule: "C17-R2", Key: "sink:Directive.Args",
 				Old: "\tcase ast.NodeKindDirectiveDefinition:\n\t\ti.currentDirective.Args = append(i.currentDirective.Args, inputValue)\n", New: ""},
 			{Name: "field arguments filed under the input object", File: c17GeneratorGo, Rule: "C17-R2", Key: "sink:Field.Args",
@@ -239,6 +241,7 @@ func c17ReportsError(info *types.Info, cc *ast.CaseClause) bool {
 func runC17(r *fw.Run) {
 	defer c17SourceIsReadOnly(r)
 	defer c17TemplatePlaceholdersNotInsideStrings(r)
+	defer c17ZeroValuedKindsAreAssignedBeforeRead(r)
 	defer func() {
 		r.Rule("C17-R15", "the introspection generator calls the partial value accessors (ast.Document.ValueContentBytes/String, which panic for five of the nine value kinds) only after a test of the value's kind that admits their domain")
 		partialValueAccessorsGuarded(r, "C17-R15", []string{"introspection"}, 2)
@@ -2283,4 +2286,109 @@ func c17KindViaHelper(p *fw.Prog, info *types.Info, call *ast.CallExpr) (kind st
 		}
 	}
 	return "", nil, false
+}
+
+// c17ZeroValuedKindsAreAssignedBeforeRead (R20): the introspection result types enumerate kinds with integer constants whose
+// first member is the zero value (`SCALAR`). A local of such a type that is declared without a value and then assigned in
+// the arms of a switch without a default silently answers SCALAR for whatever the switch did not expect — the type index
+// holds directive definitions under their bare name too, so a directive named like an enum made every reference to the
+// enum report kind SCALAR. Rule (definite assignment, for exactly the types where the zero value is a legitimate
+// member): in package introspection, a local declared without an initial value whose type is a named integer type of
+// the package that has a constant equal to zero is read only on paths on which it has been assigned.
+func c17ZeroValuedKindsAreAssignedBeforeRead(r *fw.Run) {
+	p := r.Prog
+	r.Rule("C17-R20", "in the introspection generator a local of an enumeration type whose zero value is a legitimate member (SCALAR) and that is declared without a value is read only on paths on which it has been assigned")
+	pk := p.Pkg("introspection")
+	if pk == nil {
+		r.Error("C17-R20: package introspection not loaded")
+		return
+	}
+	zeroIsMember := func(t types.Type) bool {
+		nt, ok := t.(*types.Named)
+		if !ok || nt.Obj().Pkg() != pk.Types {
+			return false
+		}
+		if b, isB := nt.Underlying().(*types.Basic); !isB || b.Info()&types.IsInteger == 0 {
+			return false
+		}
+		for _, c := range fw.ConstsOfType(pk.Types, nt) {
+			if c.Val().ExactString() == "0" {
+				return true
+			}
+		}
+		return false
+	}
+	nTypes := 0
+	for _, name := range pk.Types.Scope().Names() {
+		if tn, ok := pk.Types.Scope().Lookup(name).(*types.TypeName); ok && zeroIsMember(tn.Type()) {
+			nTypes++
+		}
+	}
+	r.Expect("C17-R20", "enumeration types of package introspection whose zero value is a member", nTypes, 1)
+	n := 0
+	for _, fi := range p.Funcs("introspection") {
+		info := fi.Info()
+		tracked := map[types.Object]bool{}
+		fw.WalkAll(fi.Decl.Body, func(nd ast.Node) bool {
+			if vs, ok := nd.(*ast.ValueSpec); ok && len(vs.Values) == 0 {
+				for _, id := range vs.Names {
+					if o := info.Defs[id]; o != nil && zeroIsMember(o.Type()) {
+						tracked[o] = true
+					}
+				}
+			}
+			return true
+		})
+		if len(tracked) == 0 {
+			continue
+		}
+		reported := map[token.Pos]bool{}
+		in := fw.NewInterp(fi)
+		checkReads := func(e ast.Node, st *fw.State) {
+			if e == nil {
+				return
+			}
+			fw.WalkAll(e, func(x ast.Node) bool {
+				id, ok := x.(*ast.Ident)
+				if !ok || !tracked[info.Uses[id]] || reported[id.Pos()] || !in.Final() {
+					return true
+				}
+				reported[id.Pos()] = true
+				n++
+				o := info.Uses[id]
+				r.Check(st.Must("assigned:"+o.Name()), "C17-R20", fi.Name()+"/assigned-before-read:"+o.Name(), p.Pos(id.Pos()), o.Name()+" in "+fi.Name()+" has been assigned on every path to this read",
+					o.Name()+" is read on a path on which it still holds the zero value of its type, which is the member SCALAR: a switch over node kinds without a default leaves it there for every node it did not expect — `directive @Role(is: Role) on FIELD_DEFINITION  enum Role {ADMIN USER}  type Query { role: Role }`: the index finds the directive definition first, no arm matches, and `Query.role.type.kind` is SCALAR while `__type(name:\"Role\").kind` is ENUM")
+				return true
+			})
+		}
+		in.H = fw.Hooks{
+			Lit: func(l *ast.FuncLit, ctx fw.LitCtx, st *fw.State) fw.LitMode { return fw.LitSkip },
+			Node: func(nd ast.Node, st *fw.State) {
+				switch x := nd.(type) {
+				case *ast.AssignStmt:
+					for _, rhs := range x.Rhs {
+						checkReads(rhs, st)
+					}
+					for _, l := range x.Lhs {
+						if id, ok := l.(*ast.Ident); ok && tracked[info.ObjectOf(id)] {
+							st.Set("assigned:" + id.Name)
+						}
+					}
+				case *ast.CompositeLit:
+					checkReads(x, st)
+				case *ast.ReturnStmt:
+					checkReads(x, st)
+				case *ast.CallExpr:
+					for _, a := range x.Args {
+						checkReads(a, st)
+					}
+				}
+			},
+		}
+		in.Run(nil)
+	}
+	if n == 0 {
+		r.Pass("C17-R20", "introspection/no-zero-valued-kind-local-is-read", "-", "no function of package introspection reads a local of such a type that was declared without a value", false)
+	}
+	r.Note("C17-R20: %d reads of zero-valued kind locals checked", n)
 }
